@@ -6,6 +6,9 @@
             the container it wraps disagree on a SEQUENTIAL trace (the wrapped container's method of the same name is
             the sequential meaning of a wrapper call - the [sem] of the atomicity theorem; a wrapper forwarding to the
             wrong sibling does not run "the same call");
+            or a result handed out by a method (CRetained: a slice / map returned by Values, Keys, ...) changed when the
+            instance was mutated afterwards, or writing into it changed the instance: the result aliases the guarded
+            storage, so caller and later calls touch it without the lock;
    kind 1 = the model is out of step with the code: the translator's view of the offending entries differs from
             Coq's, the harness worked from another table than the one compiled here, a callee classified
             read-only changed the observable state of its container.
@@ -20,7 +23,8 @@ Inductive case :=
 | COffenders (names : list (string * string))
 | CTable (n_entries n_inner : nat)
 | CReadOnly (kind method : string) (before after : list Z)
-| CDelegate (safe_obs unsafe_obs : list Z).
+| CDelegate (safe_obs unsafe_obs : list Z)
+| CRetained (before after : list Z).
 
 Definition zlist_eqb := list_eqb Z.eqb.
 
@@ -38,6 +42,7 @@ Definition check_case (c : case) : nat :=
   | CTable n k => kind_of (Nat.eqb n (length tables) && Nat.eqb k (length inner)) true
   | CReadOnly k m before after => kind_of (is_ro (k, m) && zlist_eqb before after) true
   | CDelegate a b => kind_of true (zlist_eqb a b)
+  | CRetained a b => kind_of true (zlist_eqb a b)
   end.
 
 Definition mismatches (cs : list case) : list (nat * nat) := find_bad check_case cs.
